@@ -78,6 +78,13 @@ def theorem_domain(rep, model, modules):
                     rep.bump('theorem_domain_functions_outside')
                 else:
                     raise RuntimeError('printdecls: ' + a[:200])
+            elif d[0] == 'typedef':
+                a = model.ask('printdecls', [d])
+                if a.startswith('ok '):
+                    out.append(d)
+                    rep.bump('theorem_domain_typedefs_inside')
+                else:
+                    rep.bump('theorem_domain_typedefs_outside')
             elif d[0] == 'enum':
                 a = model.ask('printdecls', [d])
                 if a.startswith('ok '):
@@ -210,6 +217,7 @@ def run(rep, tier, seed, replay=None, proof_ok=True):
                       ['var', G.a_ty(g.any_type(1 + k % 8)), 'v%d_%d' % (k, j), []] if r.random() < 0.6 else
                       ['fwd', r.random() < 0.4, ['tn', [], 'F%d_%d' % (k, j), []], []] if r.random() < 0.7 else
                       ['include', r.choice(['gtsam/geometry/Pose3.h', 'vector', 'a b.h', 'x/y/z.hpp', 'v%d.h' % j])] if r.random() < 0.5 else
+                      ['typedef', G.a_tn(G.ty_typename(g.templated_type(1 + k % 5))), 'TD%d_%d' % (k, j)] if r.random() < 0.4 else
                       ['enum', r.choice(['Kind', 'classy', 'structure', 'Mode%d' % j, 'enumerate']),
                        r.sample(['A', 'B', 'Red', 'None', 'pass', 'x', 'NONE', 'class_'], r.randint(1, 5))]
                       for j in range(1 + r.randrange(12))]
